@@ -220,6 +220,34 @@ class UValidatingNew(Exception):
     self.code = code
 
 
+class UShape(TypeError):
+  """A TypeError subclass whose args are numbers."""
+  def __init__(self, rows, cols):
+    super().__init__(rows, cols)
+    self.rows, self.cols = rows, cols
+
+
+class UHolder(Exception):
+  """Attributes holding objects that have identity, not value: a response object, a lock, a wrapped exception."""
+  def __init__(self, msg):
+    super().__init__(msg)
+    import threading
+    self.response = object()
+    self.lock = threading.Lock()
+    try:
+      raise KeyError('inner')
+    except KeyError as e:
+      self.inner = e
+
+
+class UHolderCopyable(Exception):
+  """Like UHolder, but every attribute could be deep-copied (the copies would not be the same objects)."""
+  def __init__(self, msg):
+    super().__init__(msg)
+    self.response = object()
+    self.payload = [object(), {'k': object()}]
+
+
 class UKwOnly(Exception):
   def __init__(self, *, code):
     super().__init__('code=%s' % code)
@@ -241,6 +269,8 @@ USER = {
     'UDescr': lambda: UDescr('quota', 100, 'acme'),
     'UFinal': lambda: UFinal('x'), 'UReadOnlyArgs': lambda: UReadOnlyArgs('y'), 'UValidatingNew': lambda: UValidatingNew(404, 'nf'),
     'GroupArgsReassigned': lambda: _regroup(),
+    'UShape': lambda: UShape(3, 4), 'TypeErrorNonStringArg': lambda: TypeError(42), 'TypeErrorNoArgs': lambda: TypeError(),
+    'TypeErrorBytesArg': lambda: TypeError(b'argument'), 'UHolder': lambda: UHolder('held'), 'UHolderCopyable': lambda: UHolderCopyable('held'),
 }
 
 
